@@ -18,7 +18,7 @@ from simcore.world import key_file, cert_file
 
 seams.bootstrap()
 
-from saml2_tophat import BINDING_HTTP_POST, BINDING_HTTP_REDIRECT, BINDING_SOAP  # noqa: E402
+from saml2_tophat import BINDING_HTTP_POST, BINDING_HTTP_REDIRECT, BINDING_SOAP, BINDING_HTTP_ARTIFACT  # noqa: E402
 from saml2_tophat import saml, samlp  # noqa: E402
 from saml2_tophat.client import Saml2Client  # noqa: E402
 from saml2_tophat.server import Server  # noqa: E402
@@ -52,7 +52,7 @@ def idp_endpoints(name):
 def sp_endpoints(spec):
     base = "https://%s.%s.sim.example" % (spec["name"], spec.get("tenant", "t"))
     return {"acs_post": base + "/acs/post", "acs_redirect": base + "/acs/redirect",
-            "acs_post2": base + "/acs/post2",
+            "acs_post2": base + "/acs/post2", "acs_artifact": base + "/acs/artifact",
             "slo_soap": base + "/slo/soap", "slo_post": base + "/slo/post",
             "slo_redirect": base + "/slo/redirect"}
 
@@ -155,6 +155,8 @@ def base_config(spec):
             svc["required_attributes"] = list(spec["req_attrs"])
         if spec.get("opt_attrs"):
             svc["optional_attributes"] = list(spec["opt_attrs"])
+        if spec.get("acs_artifact"):
+            svc["endpoints"]["assertion_consumer_service"].append((ep["acs_artifact"], BINDING_HTTP_ARTIFACT))
         if spec.get("acs2"):
             svc["endpoints"]["assertion_consumer_service"].append((ep["acs_post2"], BINDING_HTTP_POST))
         if spec.get("dest_regex"):
